@@ -371,3 +371,30 @@ def V_wide_scalar(case, facts):
 def V_wide_scalar_zkir(facts):
     return "unreduced-bits-exposed" if len(facts) == 1 and facts[0].startswith(
         "nb_public_inputs recorded in the MidnightVK = 2, rows tied by the circuit = 2, length of format_instance(public_inputs(..)) = 1 ") else None
+
+
+def S_jjscalar_wide(n):
+    """scalar built from n bytes with 8n bits exceeding one cell: the exposure packs consecutive chunks of w bits,
+    one per cell (w = the chip's batching width, recovered from the honest run: the only width whose chunking
+    reproduces the honest instance modulo p). Claim: every exposed cell equals the INTEGER value of its chunk (so the
+    chunk value is below p, nothing wraps) and the bytes are bytes; hence the cells determine every bit of the scalar."""
+    def spec(e, I, O):
+        P_ = e.P
+        hI, hO = honest_of(e, I), honest_of(e, O)
+        N = sum(b << (8 * i) for i, b in enumerate(hI))
+        k = len(O)
+        ws = [w for w in range(1, 8 * n + 1) if -(-8 * n // w) == k and
+              all(((N >> (w * j)) & ((1 << w) - 1)) % P_ == hO[j] for j in range(k))]
+        if len(ws) != 1:
+            raise NotImplementedError(f"batching width of the scalar exposure not identifiable from the honest run: {ws[:4]}")
+        w = ws[0]
+        e.pubin_width = w
+        bits = []
+        for b in I:
+            bits += bits_of(e, b, 8, lt(b, 256))
+        claims = [lt(b, 256) for b in I]
+        for j in range(k):
+            chunk = bits[w * j: w * (j + 1)]
+            claims.append(eq(O[j], e.named_sum([(1 << t, c) for t, c in enumerate(chunk)])))
+        return AND(*claims)
+    return spec
